@@ -318,20 +318,27 @@ class Run:
 
     def check_state(self, j, where):
         g = self.gens[j]
-        if g is None or self.tail:
-            return
-        try:
-            got = self.proc.state(g)
-        except Exception as exc:
-            self.viol('state_raised', exception=repr(exc))
-        want = self.state[j]
-        if got != want:
-            self.viol('state_differs_from_lifecycle', coroutine=j, where=where, got=getattr(got, 'name', got),
-                      expected=want.name, finished=self.finished[j])
         pr = self.promises[j]
+        if (g is None and pr is None) or self.tail:
+            return
+        want = self.state[j]
+        if g is not None:
+            try:
+                got = self.proc.state(g)
+            except Exception as exc:
+                self.viol('state_raised', exception=repr(exc))
+            if got != want:
+                self.viol('state_differs_from_lifecycle', coroutine=j, where=where, got=getattr(got, 'name', got),
+                          expected=want.name, finished=self.finished[j])
+        g = None
         if pr is not None:
-            if pr.state != want:
-                self.viol('promise_state_differs', coroutine=j, got=pr.state.name, expected=want.name)
+            try:
+                pstate = pr.state
+            except Exception as exc:
+                self.viol('promise_state_raised', coroutine=j, exception=repr(exc),
+                          generator_held_by_the_program=self.gens[j] is not None)
+            if pstate != want:
+                self.viol('promise_state_differs', coroutine=j, got=pstate.name, expected=want.name)
             if self.finished[j]:
                 if pr.value is not self.retval[j]:
                     self.viol('promise_value_is_not_the_returned_object', coroutine=j, got=repr(pr.value),
@@ -458,8 +465,17 @@ class Run:
         self.flags['release_checked'] += 1
 
     def op_forget(self, i):
+        keep_promise = (i // self.n) % 2 == 1
         i %= self.n
         if self.forgotten[i] or not self.ever_started[i]:
+            return
+        if keep_promise and self.promises[i] is not None and self.gens[i] is not None:
+            # the program drops the generator but keeps the promise (`p = proc.start(f())`): state and value stay
+            # available through the promise, which is all the program has left
+            self.gens[i] = None
+            self.flags['generator_dropped_promise_kept'] += 1
+            return
+        if self.gens[i] is None:
             return
         self.forgotten[i] = True
         self.gens[i] = None
